@@ -803,6 +803,13 @@ fn dispatch_global_env_vars(config: &mut Config) {
 				}
 				cert.env = new_vars;
 			}
+			for account in config.account.iter_mut() {
+				let mut new_vars = glob.env.clone();
+				for (k, v) in account.env.iter() {
+					new_vars.insert(k.to_string(), v.to_string());
+				}
+				account.env = new_vars;
+			}
 		}
 	}
 }
